@@ -101,7 +101,7 @@ func judgeC04(unjudged *int64) func(c *Case, tr *hx.Trace, w *ref.World) []Verdi
 }
 
 func C04(rep *ev.Reporter, tier string) {
-	bud := NewBudget(50 * time.Second)
+	bud := NewBudget(150 * time.Second)
 	if tier == "thorough" {
 		bud = NewBudget(9 * time.Minute)
 	}
